@@ -213,6 +213,31 @@ def default_pieces(src_root):
     return [unescape(g) for g in m.groups()]
 
 
+RAW_STR_RE = re.compile(r'std::string\s+display\s*\(\s*terminal_param_t\s*,\s*format\s*\)\s*const\s*final\s*\{\s*'
+                        r'return\s+quote_str\s*\(\s*val_\s*\)\s*;\s*\}')
+ESC_STR_RE = re.compile(r'std::string\s+display\s*\(\s*terminal_param_t\s*,\s*format\s*\)\s*const\s*final\s*\{\s*'
+                        r'std::string\s+out\s*\(\s*"\\""\s*\)\s*;\s*'
+                        r'for\s*\(\s*const\s+char\s+c\s*:\s*val_\s*\)\s*\{\s*'
+                        r"if\s*\(\s*c\s*==\s*'\"'\s*\|\|\s*c\s*==\s*'\\\\'\s*\)\s*out\s*\+=\s*'\\\\'\s*;\s*"
+                        r'out\s*\+=\s*c\s*;\s*\}\s*return\s+out\s*\+\s*"\\""\s*;\s*\}')
+
+
+def string_escapes(src_root):
+    """does constant<std::string>::display escape double quotes and backslashes?
+    (kernel/gp/src/constant.h)  Raises OutsideSubset when the body is neither of the two known shapes."""
+    src = cxx_mini.strip_comments(open(os.path.join(src_root, "kernel/gp/src/constant.h")).read())
+    i = src.find("class constant<std::string>")
+    if i < 0:
+        raise OutsideSubset("constant.h: no constant<std::string>")
+    body = src[i:]
+    if ESC_STR_RE.search(body):
+        return True
+    if RAW_STR_RE.search(body) and re.search(r'quote_str\s*\(\s*const\s+std::string\s*&\s*s\s*\)\s*\{\s*return\s*"\\""\s*\+\s*s\s*\+\s*"\\""\s*;\s*\}', body):
+        return False
+    raise OutsideSubset("constant.h: constant<std::string>::display is neither `return quote_str(val_);` nor the "
+                        "escaping loop")
+
+
 def zl(b):
     return "[" + "; ".join(str(x) for x in b) + "]"
 
@@ -222,7 +247,7 @@ def show(b):
     return s.replace("(*", "( *").replace("*)", "* )")
 
 
-def emit(infos, dflt):
+def emit(infos, dflt, escapes=False):
     L = []
     L.append("(* GENERATED by translate/templates.py from src/kernel/gp/src/primitive/{int,real,bool,string}.h and "
              "src/kernel/gp/function.cc on every check run -- do not edit. *)")
@@ -234,6 +259,9 @@ def emit(infos, dflt):
     L.append("(* function::display(format):  name() + lpar + first + { sep_pre + to_string(i+1) + sep_post } + rpar *)")
     for nm, b in zip(["dflt_first", "dflt_sep_pre", "dflt_sep_post", "dflt_lpar", "dflt_rpar"], dflt):
         L.append("Definition %s : list Z := %s.  (* %s *)" % (nm, zl(b), show(b)))
+    L.append("")
+    L.append("(* constant<std::string>::display (kernel/gp/src/constant.h): are double quotes and backslashes escaped? *)")
+    L.append("Definition const_str_escapes : bool := %s." % ("true" if escapes else "false"))
     L.append("")
 
     def dsp(e):
@@ -282,7 +310,12 @@ def generate(src_root):
     except (OutsideSubset, OSError) as e:
         problems.append(str(e))
         dflt = [b"%%1%%", b",%%", b"%%", b"(", b")"]
-    return infos, problems, emit(infos, dflt)
+    try:
+        esc = string_escapes(src_root)
+    except (OutsideSubset, OSError) as e:
+        problems.append(str(e))
+        esc = False
+    return infos, problems, emit(infos, dflt, esc)
 
 
 if __name__ == "__main__":
